@@ -251,8 +251,18 @@ class C08(Check):
                 ctx.outcome(f"{entry}:raised")
             return
         if self.must_raise(entry, shape, rank):
-            ctx.violation(f"{tag}/invalid-boundary-rank-accepted", f"{case}: rank {rank} violates the boundary condition of the format but no error was raised")
-            return
+            # The statement demands the boundary conditions of the RESULT; a specification that violates them has to be either refused
+            # or not honoured (single-core TT-matrix: the specification is irrelevant and ignored) - it must never come back in the output.
+            try:
+                cores = [np.asarray(c) for c in res]
+                ok_boundary = (cores[0].shape[0] == cores[-1].shape[-1]) and (entry.startswith("tensor_ring") or cores[0].shape[0] == 1)
+            except Exception:
+                ok_boundary = False
+            if not ok_boundary:
+                ctx.violation(f"{tag}/invalid-boundary-rank-accepted", f"{case}: rank {rank} violates the boundary condition of the format, no error was raised and the result carries it")
+                return
+            ctx.count("invalid-boundary-spec-not-refused-but-result-has-valid-boundary")
+            ctx.outcome(f"{entry}:invalid-spec-ignored")
         ctx.nontriv()
         path = "n/a"
         if errs is not None and tol is not None:
